@@ -23,22 +23,33 @@ fn handled(log: &Log, who: &str) -> Vec<(u32, u64)> {
 
 /// send_after with the target stopping at `exit_ms` (None = stays alive) and the handle aborted at `abort_ms`
 fn send_after_body(period_ms: u64, exit_ms: Option<u64>, abort_ms: Option<u64>, kill: bool) -> vsched::Body {
+    send_after_body_us(period_ms * 1000, exit_ms.map(|e| e * 1000), abort_ms.map(|a| a * 1000), kill)
+}
+
+const US: u64 = 1_000;
+
+/// the same in microseconds (sub-millisecond periods); `abort_us == Some(0)` aborts the handle right after
+/// it was obtained, without any await in between: the timer task cannot have run
+fn send_after_body_us(period_us: u64, exit_us: Option<u64>, abort_us: Option<u64>, kill: bool) -> vsched::Body {
     Arc::new(move || {
         Box::pin(async move {
+            let (period_ms, exit_ms, abort_ms) = (period_us, exit_us, abort_us); // (names kept; the unit is us)
+            #[allow(non_upper_case_globals)]
+            const MS: u64 = US;
             let log = Log::default();
             let (a, ah) = Actor::spawn(None, Probe, args("A", Prog::default(), &log)).await.expect("A");
             let t0 = vsched::now();
-            let h = a.send_after(Duration::from_millis(period_ms), || do_msg(1, vec![]));
+            let h = a.send_after(Duration::from_micros(period_ms), || do_msg(1, vec![]));
             // an unrelated task that becomes ready at the same instant (ties are explored)
             let a2 = a.clone();
             let tie = vsched::spawn("tie", async move {
-                vsched::sleep(Duration::from_millis(period_ms)).await;
+                vsched::sleep(Duration::from_micros(period_ms)).await;
                 let _ = a2.cast(do_msg(2, vec![]));
             });
             let a3 = a.clone();
             let exiter = vsched::spawn("exiter", async move {
                 if let Some(e) = exit_ms {
-                    vsched::sleep(Duration::from_millis(e)).await;
+                    vsched::sleep(Duration::from_micros(e)).await;
                     if kill {
                         a3.kill();
                     } else {
@@ -50,7 +61,9 @@ fn send_after_body(period_ms: u64, exit_ms: Option<u64>, abort_ms: Option<u64>, 
             let mut aborted_at = None;
             let res = match abort_ms {
                 Some(ab) => {
-                    vsched::sleep(Duration::from_millis(ab)).await;
+                    if ab > 0 {
+                        vsched::sleep(Duration::from_micros(ab)).await;
+                    }
                     h.abort();
                     aborted_at = Some(vsched::now() - t0);
                     h.await.map_err(|_| "aborted".to_string()).map(|r| r.is_ok())
@@ -68,16 +81,16 @@ fn send_after_body(period_ms: u64, exit_ms: Option<u64>, abort_ms: Option<u64>, 
             }
             for t in &mine {
                 if *t < period_ms * MS {
-                    bad.push(format!("send_after({period_ms} ms) delivered after {t} ns"));
+                    bad.push(format!("send_after({period_ms} us) delivered after {t} ns"));
                 }
                 if *t != period_ms * MS {
-                    bad.push(format!("send_after({period_ms} ms) delivered at {t} ns although nothing consumed time"));
+                    bad.push(format!("send_after({period_ms} us) delivered at {t} ns although nothing consumed time"));
                 }
             }
             match (abort_ms, exit_ms) {
-                (Some(ab), _) if ab < period_ms => {
+                (Some(ab), _) if ab < period_ms || ab == 0 => {
                     if !mine.is_empty() {
-                        bad.push(format!("the timer was aborted at {ab} ms, before its expiry at {period_ms} ms, but the message was delivered"));
+                        bad.push(format!("the timer was aborted at {ab} us, before it fired (period {period_ms} us{}), but the message was delivered", if ab == 0 { "; aborted before the timer task could run" } else { "" }));
                     }
                 }
                 (None, None) => {
@@ -224,6 +237,15 @@ pub fn plan(tier: &str) -> Plan {
     for (exit, kill) in [(4u64, false), (5, false), (6, false), (4, true), (5, true)] {
         units.push(Unit::explore(Job::new(format!("send_after/5ms/exit@{exit}ms{}", if kill { "-kill" } else { "" }), cfg.clone(), Some(bound), send_after_body(5, Some(exit), None, kill))));
     }
+    // zero and sub-millisecond periods: never early, and an abort before the timer task ran prevents delivery
+    for period_us in [0u64, 1, 900, 1500] {
+        units.push(Unit::explore(Job::new(format!("send_after/{period_us}us/live"), cfg.clone(), Some(bound), send_after_body_us(period_us, None, None, false))));
+        units.push(Unit::explore(Job::new(format!("send_after/{period_us}us/abort@0"), cfg.clone(), Some(bound), send_after_body_us(period_us, None, Some(0), false))));
+        if period_us > 1 {
+            units.push(Unit::explore(Job::new(format!("send_after/{period_us}us/abort@{}us", period_us / 2), cfg.clone(), Some(bound), send_after_body_us(period_us, None, Some(period_us / 2), false))));
+            units.push(Unit::explore(Job::new(format!("send_after/{period_us}us/exit@{}us", period_us / 2), cfg.clone(), Some(bound), send_after_body_us(period_us, Some(period_us / 2), None, false))));
+        }
+    }
     for ab in [0u64, 4, 5, 6] {
         units.push(Unit::explore(Job::new(format!("send_after/5ms/abort@{ab}ms"), cfg.clone(), Some(bound), send_after_body(5, None, Some(ab), false))));
     }
@@ -241,7 +263,7 @@ pub fn plan(tier: &str) -> Plan {
     Plan {
         property: "C12",
         units,
-        rule: "period in {0, 1, 5} ms x target exit before / exactly at / after the expiry (stop or kill) x handle abort before / at / after the expiry x interval with message construction that burns half a period x exit_after / kill_after on idle and busy actors, on the virtual clock; a deviation-bounded DFS explores same-instant ties (timer vs. unrelated ready task vs. exit); oracle on exact virtual timestamps; non-trivial = execution with >= 1 branching decision".into(),
+        rule: "period in {0, 1 us, 900 us, 1.5 ms, 1 ms, 5 ms} x target exit before / exactly at / after the expiry (stop or kill) x handle abort right after the handle was obtained (before the timer task ran) / before / at / after the expiry x interval with message construction that burns half a period x exit_after / kill_after on idle and busy actors, on the virtual clock; a deviation-bounded DFS explores same-instant ties (timer vs. unrelated ready task vs. exit); oracle on exact virtual timestamps; non-trivial = execution with >= 1 branching decision".into(),
         assumptions: vec![
             "the seam's Interval (next_tick += period, the algorithm of the repository's async-std backend) stands in for tokio's Interval: the no-drift clause is decided for the loop in time.rs on top of it, not for tokio's timer wheel".into(),
             "computation takes zero virtual time unless the harness burns it".into(),
